@@ -325,8 +325,10 @@ func NewInhibitRule(cr amcommoncfg.InhibitRule) *InhibitRule {
 		SourceMatchers: sourcem,
 		TargetMatchers: targetm,
 		Equal:          equal,
-		scache:         store.NewAlerts(),
-		sindex:         newIndex(),
+		// The cache mirrors the provider's alerts in the order the provider
+		// publishes them; the provider has already sorted out outdated updates.
+		scache: store.NewAlerts().AcceptOlderVersions(),
+		sindex: newIndex(),
 	}
 
 	rule.scache.SetGCCallback(rule.gcCallback)
